@@ -86,6 +86,9 @@ def run(tier, seed):
             raise common.ToolError(f"node_fuzz reached only {rep7['counters'].get('stages_reached')} of 8 stages: the honest prefixes do not work")
     evals += rep7["evaluations"]
     distinct += rep7["distinct"]
+    # ---- "never buffers more than its configured limits": MuxBuffer.tla's blocked states against a raw flooding peer (shared with C14)
+    buf_cov, buf_fails = buffering(d, seed)
+    fails += buf_fails
     cov = {"states": total_paths, "transitions": evals, "traces_validated_against_impl": rep1["evaluations"], "samples": samples[:4],
            "evaluations": evals, "distinct_nontrivial": distinct,
            "rule": f"mux: every path of <= {maxlen} frame headers over kind {{OPEN,DATA,CLOSE,both bits}} x side x id {{in range, first out of range, max}} x DATA "
@@ -97,7 +100,8 @@ def run(tier, seed):
                         "rule": "Listener.tla: stage {encryption frame, noise handshake, endpoint frame, identity handshake, mux handshake, mux frames} x malformed class "
                                 "{garbage, oversize length, truncated, empty, well-formed frame of another stage, hang-up} x endpoint; the honest prefix is performed "
                                 "for real against a running node over loopback TCP; after every input an honest configured peer must be admitted and the pools must drain"},
-           "not_covered": "totality of every decoder over every byte string (sampled only); buffering limits are C14's flood scenario"}
+           "buffering": buf_cov,
+           "not_covered": "totality of every decoder over every byte string (sampled only)"}
     common.write_evidence(PROP, tier, seed, "model_checking", cov,
                           ["harness is built with panic=unwind so that a panic of the code under test is observed instead of aborting the run",
                            "decoders are exercised through zksync_protobuf::decode of the public types only"], time.time() - t0, len(fails))
@@ -106,12 +110,45 @@ def run(tier, seed):
     return 0
 
 
+BUF_KEYS = ("mux_buffer_bound_exact", "mux_buffer_bound", "mux_frame_count_bound")
+
+
+def buffering(d, seed):
+    mb = common.tlc("network", "MC_MuxBuffer", cfg="MC_MuxBuffer.cfg", workers=1, timeout=900)
+    if not mb.ok:
+        raise common.ToolError("MuxBuffer.tla properties fail on the specification:\n" + mb.out[-1500:])
+    mbp = os.path.join(d, "muxbuffer_cases.ndjson")
+    cases = mb.printed("CASE")
+    common.write_ndjson(mbp, cases)
+    rp = os.path.join(d, "buffer_report.json")
+    if os.path.exists(rp):
+        os.remove(rp)
+    rc, so, se = common.run_bin("mux_drv", [os.path.join(d, "buffer_trace.ndjson"), rp, seed * 100 + 77, mbp], timeout=600)
+    if rc != 0 and not os.path.exists(rp):
+        raise common.ToolError("mux_drv failed: " + se[-800:])
+    r = common.load_report(rp)
+    fails = []
+    for f in r["failures"]:
+        if f["key"] in BUF_KEYS:
+            f["case"] = {"mode": "buffer", "seed": seed}
+            fails.append(f)
+    return ({"muxbuffer_states": mb.distinct, "raw_peer_scenarios": len(cases), "exact_flood_cases": r["counters"].get("exact_flood_cases", 0),
+             "flood_pulled": r["counters"].get("flood_pulled", 0), "flood_bound": r["counters"].get("flood_bound", 0),
+             "rule": "MuxBuffer.tla (Bounded, AllPulled): a raw peer sends the frame list of each scenario (DATA floods on one and two streams, control-frame floods) to a real "
+                     "Mux whose application reads nothing; bytes pulled from the transport compared with the specification's blocked state"}, fails)
+
+
 def replay(path, seed):
     import json
     c = json.load(open(path))
     common.cargo_build()
     d = common.outdir(PROP)
     case = c["case"]
+    if isinstance(case, dict) and case.get("mode") == "buffer":
+        _, fails = buffering(d, case.get("seed", seed))
+        common.handle_failures(PROP, fails, "replay_failure")
+        log("replay: no violation")
+        return 0
     if isinstance(case, dict) and case.get("mode") == "listener":
         cp = os.path.join(d, "replay_case.ndjson")
         common.write_ndjson(cp, [case["case"]["case"]])
